@@ -842,10 +842,10 @@ def filter_sources(filters: list[str], thorough: bool, r) -> list[tuple[str, str
                 "where", "reject", "uniq", "compact", "find", "find_index", "has", "size", "slice", "default",
                 "json", "split"}
     for f in filters:
-        if thorough:
+        if f in arrayish:
             paths = list(PATHS)
-        elif f in arrayish:
-            paths = list(PATHS)
+        elif thorough:
+            paths = r.sample(PATHS, 12) + ["ints", "dicts"]
         else:
             paths = r.sample(PATHS, 4) + ["ints", "dicts"]
         for p in dict.fromkeys(paths):
@@ -860,7 +860,7 @@ def filter_sources(filters: list[str], thorough: bool, r) -> list[tuple[str, str
                 P2 = "{R}.dicts" if p != "dicts" else "{R}.ints"
                 fa = f + a.replace("{P2}", P2)
                 expr = f"{P} | {fa}"
-                kind = r.randrange(4) if not thorough else None
+                kind = None if (thorough and f in arrayish) else r.randrange(4)
                 forms = [
                     "{{ " + expr + " }}",
                     "{% assign y = " + expr + " %}{{ y }}{% assign z = y | reverse %}{{ z | join }}{{ y | first }}",
@@ -992,14 +992,16 @@ def part_d(chk: C.Check, thorough: bool) -> None:
     try:
         for label, path, src0 in cases:
             ci += 1
-            tails = FAIL_TAILS if thorough else [FAIL_TAILS[0], FAIL_TAILS[1 + ci % (len(FAIL_TAILS) - 1)]]
-            roots = ROOTS if thorough else [ROOTS[ci % 4]]
+            tails = [FAIL_TAILS[0], FAIL_TAILS[1 + ci % (len(FAIL_TAILS) - 1)]]
+            roots = [ROOTS[ci % 4]]
             for root in roots:
                 for tail in tails:
                     src = src0.replace("{R}", root) + tail
                     for ei, (ename, env, is_async) in enumerate(envs):
                         if not thorough and (ei == 1) != bool(tail):
                             continue  # quick: plain tail on the spy and async environments, failing tail on the strict one
+                        if thorough and tail and ei == 0:
+                            continue  # thorough: plain tail on all three, failing tail on the strict and the async one
                         current[0] = (label, path)
                         matter["main"] = W.data["mm"]
                         sources["main"] = src
@@ -1091,7 +1093,8 @@ def main(chk: C.Check, build: C.Build) -> None:
                  "with|for|include block / increment, in 9 program shapes (quick: one API path per case in rotation; thorough: all three); "
                  "B: the same 256 subsets plus seeded random nested operation sequences on a real RenderContext; C: random ReadOnlyChainMap "
                  "histories; D: every registered filter x container path x argument shape, every expression-taking tag, filter pairs, "
-                 "failing tails, 3 environments (quick: one root and one failing tail per case in rotation). "
+                 "failing tails, 3 environments (one root and one failing tail per case in rotation; quick samples argument shapes, "
+                 "paths of non-array filters, one of four template forms, 6 of 24 for-loop option sets and 3 paths per filter pair). "
                  "distinct_nontrivial = distinct A (subset, shape) pairs whose name is bound in >= 2 layers + distinct B sequences in which "
                  "some lookup found its name in >= 2 maps of the real chain (counted on the real objects at lookup time) + distinct D "
                  "(filter, path) pairs in which a caller-owned container object (by identity) was passed to the filter, plus (tag, path) "
